@@ -2,6 +2,7 @@ from miasm.core.utils import decode_hex, encode_hex
 import miasm.expression.expression as m2_expr
 from miasm.ir.symbexec import SymbolicExecutionEngine
 from miasm.arch.x86.arch import is_op_segm
+from miasm.jitter.csts import EXCEPT_ACCESS_VIOL, PAGE_READ, PAGE_WRITE
 
 
 class EmulatedSymbExec(SymbolicExecutionEngine):
@@ -67,6 +68,20 @@ class EmulatedSymbExec(SymbolicExecutionEngine):
             self.symbols.symbols_id[reg] = m2_expr.ExprInt(0, size=reg.size)
 
     # Memory management
+    def _check_mem_access(self, addr, size, access):
+        """Return True if the @size bytes at @addr are mapped with the rights
+        @access. Otherwise, report an access violation in the vm exception
+        flags (the host API get_mem / set_mem raises on unmapped memory and
+        does not check the rights)"""
+        if self.vm.is_mapped(addr, size):
+            for offset in range(size):
+                if not self.vm.get_mem_access(addr + offset) & access:
+                    break
+            else:
+                return True
+        self.vm.set_exception(self.vm.get_exception() | EXCEPT_ACCESS_VIOL)
+        return False
+
     def mem_read(self, expr_mem):
         """Memory read wrapper for symbolic execution
         @expr_mem: ExprMem"""
@@ -76,6 +91,9 @@ class EmulatedSymbExec(SymbolicExecutionEngine):
             return super(EmulatedSymbExec, self).mem_read(expr_mem)
         addr = int(addr)
         size = expr_mem.size // 8
+        if not self._check_mem_access(addr, size, PAGE_READ):
+            # The instruction is aborted by the caller (exception flag)
+            return m2_expr.ExprInt(0, expr_mem.size)
         value = self.vm.get_mem(addr, size)
         if self.vm.is_little_endian():
             value = value[::-1]
@@ -106,6 +124,12 @@ class EmulatedSymbExec(SymbolicExecutionEngine):
 
         if self.vm.is_little_endian():
             content = content[::-1]
+
+        # An access violation aborts the instruction: no effect on memory
+        if self.vm.get_exception() & EXCEPT_ACCESS_VIOL:
+            return
+        if not self._check_mem_access(addr, size, PAGE_WRITE):
+            return
 
         # Write in VmMngr context
         self.vm.set_mem(addr, content)
